@@ -100,6 +100,7 @@ class SelectPlan:
         self.names = getattr(self, 'names', None)
         names = []
         self.cols = []
+        self.col_tables = []
         for e, alias in sel.columns:
             if e[0] == 'star':
                 q = e[1].lower() if e[1] else None
@@ -110,16 +111,20 @@ class SelectPlan:
                         for lname, (name, cs) in s.cols.items():
                             self.cols.append(comp._col_closure(0, s.index, lname, cs))
                             names.append(name)
+                            self.col_tables.append(s.alias)
                 if not found:
                     raise OperationalError(1051, f"Unknown table '{e[1]}'")
                 continue
             f = comp.expr(e, scope)
             self.cols.append(f)
+            ref = getattr(f, 'colref', None)
+            self.col_tables.append(scope.sources[ref[1]].alias if (e[0] == 'col' and ref is not None and ref[0] == 0) else '')
             if alias is not None:
                 names.append(alias)
                 scope.aliases[alias.lower()] = f
             elif e[0] == 'col':
                 names.append(e[2])
+                scope.aliases.setdefault(e[2].lower(), f)
             else:
                 names.append(_expr_text(e))
         if self.names is None:
